@@ -95,7 +95,9 @@ def time_body(ctx, case):
     c, d = case["c"], case["d"]
     xs1, z1 = rfagen.run_rfa(case)
     x2 = [c * v + d for v in case["x"]]
-    if not all(b > a for a, b in zip(x2[:-1], x2[1:])):
+    gaps2 = [b - a for a, b in zip(x2[:-1], x2[1:])]
+    if min(gaps2) / case["n"] <= 1e6 * float(np.spacing(max(abs(v) for v in x2))):
+        # the mapped abscissae (e.g. nanosecond gaps shifted to 512) leave no room for n distinct sub-steps
         ctx.count("degenerate-map-skipped")
         return
     case2 = dict(case, x=x2)
